@@ -154,6 +154,8 @@ V4s ==
   \cup {[DefV4 EXCEPT !.ver = x] : x \in {"six", "five", "zero"}}
   \cup {[DefV4 EXCEPT !.auth = x, !.trail = t] : x \in {"ok", "zero", "cut", "big"}, t \in {0, 3}}
   \cup {[DefV4 EXCEPT !.ihl = "opt", !.tl = x, !.auth = "ok"] : x \in {"minus", "plus"}}
+  \* options AND a damaged authentication header behind them (offsets of the AH faults depend on the real header length)
+  \cup {[DefV4 EXCEPT !.ihl = i, !.auth = a, !.trail = t] : i \in {"opt", "max"}, a \in {"cut", "big", "zero"}, t \in {0, 3}}
   \* options present AND a total length between the fixed part and the real header length / at the header length
   \cup {[DefV4 EXCEPT !.ihl = i, !.tl = x, !.trail = t] : i \in {"opt", "max"}, x \in {"hdrminus", "hdr", "twenty", "minus", "plus"}, t \in {0, 3}}
 
